@@ -51,7 +51,7 @@ def generate(seed, tier='quick'):
     n = rng.randint(2, 5)
     msgs = []
     for k in range(n):
-        nr = rng.randint(1, 4)
+        nr = rng.randint(1, 4) if rng.random() < 0.8 else rng.randint(9, 12)
         m = {'k': k, 'sender': rng.choice(['', 'm%d@s.example' % k]),
              'rcpts': ['r%d.%d@d.example' % (k, j) for j in range(nr)],
              'start': rng.choice([0.0, 0.0, 0.001, 0.003, 0.01]),
@@ -67,7 +67,10 @@ def generate(seed, tier='quick'):
                 if did_deliver or nr < 1:
                     continue
                 did_deliver = True
-                idx = sorted(rng.sample(range(nr), rng.randint(0, nr)))
+                idx = rng.sample(range(nr), rng.randint(0, nr))
+                if rng.random() < 0.5:
+                    idx.sort()          # else: any order (the contract says
+                                        # "list of indexes", not "sorted")
                 ops.append({'op': 'delivered', 'idx': idx,
                             'as': rng.choice(['list', 'set', 'tuple'])})
             elif o == 'set_timestamp':
@@ -236,9 +239,9 @@ def execute(scn, debug=False):
                                          store.set_recipients_delivered,
                                          md.id, arg)
                     if ok:
-                        md.delivered = {tuple(idx)}
+                        md.delivered = {tuple(sorted(idx))}
                     else:
-                        md.delivered = md.delivered | {tuple(idx)}
+                        md.delivered = md.delivered | {tuple(sorted(idx))}
                 elif op == 'remove':
                     ok, r, s0, s1 = call(k, op, store.remove, md.id)
                     md.removed_seq = (s0, s1)
